@@ -36,6 +36,9 @@ func randInMsg(rng *Rng, id uint32, big bool) *rwp.InboundMessage {
 }
 
 func genC09(tier string, rng *Rng) {
+	if runInChild() {
+		return
+	}
 	findDriver("C09")
 	var scs []*Scenario
 	hist := map[string]int{}
@@ -105,6 +108,57 @@ func genC09(tier string, rng *Rng) {
 				hist[fmt.Sprintf("%s-%dsub", mode, nsub)]++
 			}
 		}
+	}
+	// after a panel drop and the automatic reconnect: 24 single-message lists (and lists from 4
+	// goroutines) submitted on the NEW connection must all arrive there, in order
+	for _, asc := range []bool{false, true} {
+		for _, nsub := range []int{1, 4} {
+			first := ConnScript{Items: []Item{ackItem()}, Segs: []SegCut{{0, 6}}, End: "close", EndT: 250}
+			second := goodConn(1, 2)
+			redial := 1250
+			if asc {
+				first = ConnScript{Items: []Item{{Kind: "ln", Data: Lit([]byte("RDY"))}}, Segs: []SegCut{{0, 4}}, End: "close", EndT: 250}
+				second = goodAscConn("HWC#1=Down", "HWC#1=Up")
+				redial = 2250
+			}
+			sc := &Scenario{Entry: "client", Conns: []ConnScript{first, second}, SubStart: 100, SubConn: 1, Cancel: redial + 1300}
+			for k := 0; k < nsub; k++ {
+				var list []Submission
+				for j := 0; j < 24/nsub; j++ {
+					list = append(list, Submission{Msgs: []*rwp.InboundMessage{randInMsg(rng, uint32(1000*(k+1)+2*j+1), false)}})
+				}
+				sc.Subs = append(sc.Subs, list)
+			}
+			mode := "bin"
+			if asc {
+				mode = "asc"
+			}
+			sc.ID = fmt.Sprintf("%s-after-reconnect-%dsub", mode, nsub)
+			scs = append(scs, sc)
+			hist[mode+"-after-reconnect"]++
+		}
+	}
+	// text fields with characters that are special to formatting functions, shells, JSON
+	for _, asc := range []bool{false, true} {
+		specials := []string{"Iris 50%", "%d items", "100%% %s", "%!|x", "a\\b\\n", "say \"hi\"", "it's", "Gr\u00fc\u00dfe \u00b0C", "%", "tab\there", "{json: [1,2]}", "$(x) `y`"}
+		cs := goodConn(1)
+		if asc {
+			cs = goodAscConn("HWC#1=Down")
+		}
+		sc := &Scenario{Entry: "client", Conns: []ConnScript{cs}, SubStart: 100, Cancel: 1300}
+		var list []Submission
+		for i, sp := range specials {
+			m := &rwp.InboundMessage{States: []*rwp.HWCState{{HWCIDs: []uint32{uint32(500 + i)}, HWCText: &rwp.HWCText{Title: sp, Textline1: sp + "!", Textline2: "x" + sp, Formatting: 7}}}}
+			list = append(list, Submission{Msgs: []*rwp.InboundMessage{m}})
+		}
+		sc.Subs = [][]Submission{list}
+		mode := "bin"
+		if asc {
+			mode = "asc"
+		}
+		sc.ID = mode + "-special-text"
+		scs = append(scs, sc)
+		hist[mode+"-special-text"]++
 	}
 	// a slow consumer of msgsFromPanel: the panel sends an event, the application picks it up
 	// only after 3 s; submissions made meanwhile (and after) must all reach the panel
